@@ -47,7 +47,7 @@ def generate(seed, tier, prop="C20"):
     dec = r.choice([0.0, 1e-3, 0.1]) if r.random() < 0.4 else (r.choice(DYADIC) if r.random() < 0.6
                                                              else rng.loguniform(r, 1e-6, 10.0))
     tol = r.choice([1e-5, 1e-3, 0.1, 0.0])
-    rep = r.choice(["float", "t64", "t32"]) if mode == "plateau" else r.choice(["float", "t64", "t32", "b64", "b32"])
+    rep = r.choice(["float", "t64", "t32"]) if mode == "plateau" else r.choice(["float", "np64", "t64", "t32", "b64", "b32"])
     cfg = {"steps": steps, "patience": patience, "decreasing": dec, "tol": tol, "rep": rep,
            "batch": r.randint(2, 4) if rep.startswith("b") else 0, "verbose": r.random() < 0.2}
     plan = {"engine": NAME, "seed": seed, "mode": mode, "config": cfg, "ops": []}
@@ -161,6 +161,9 @@ def _mk(rep, vals):
     """Concrete representation of a loss value / batch of loss values."""
     if rep == "float":
         return float(vals[0])
+    if rep == "np64":
+        import numpy as np
+        return np.float64(vals[0])
     if rep == "t64":
         return torch.tensor(float(vals[0]), dtype=torch.float64)
     if rep == "t32":
